@@ -599,6 +599,26 @@ M('c06-findavail-raw-stop', 'C06', 'src/containers/qhasharr.c',
   'I12', 'find_avail', 'ring walk compares the wrapped cursor with the raw start index')
 
 
+M('c18-tail-in-blocks', 'C18', 'src/utilities/qhash.c',
+  "    const uint8_t *tail = (const uint8_t *) (data + (nblocks * 4));",
+  "    const uint8_t *tail = ((const uint8_t *) data) + nblocks;",
+  'DIM1', 'qhashmurmur3_32', 'tail pointer advanced by the block count instead of the byte count')
+
+
+M('c12-valist-hoisted', 'C12', 'src/internal/qinternal.h',
+  "            va_list _arglist;                                           \\\n            va_start(_arglist, f);                                      \\\n            int _n = vsnprintf(s, _strsize, f, _arglist);               \\\n            va_end(_arglist);                                           \\\n",
+  "            static int _once = 0;                                       \\\n            va_list _arglist;                                           \\\n            if (_strsize == 1024) va_start(_arglist, f);                \\\n            int _n = vsnprintf(s, _strsize, f, _arglist);               \\\n            (void) _once;                                               \\\n",
+  'VA1', None, 'the va_list is started for the first attempt only')
+M('c03-purge-prunes-unmarked', 'C03', 'src/containers/qtreetbl.c',
+  "static void clear_tids(qtreetbl_obj_t *obj) {\n    if (obj == NULL) {\n        return;\n    }\n",
+  "static void clear_tids(qtreetbl_obj_t *obj) {\n    if (obj == NULL || obj->tid == 0) {\n        return;\n    }\n",
+  'T11', 'reset_iterator', 'the purge stops at unmarked nodes although their children may be marked')
+M('c13-unique-remove-before-lock', 'C13', 'src/containers/qlisttbl.c',
+  "    // lock table\n    qlisttbl_lock(tbl);\n\n    // if unique flag is set, remove same key\n    if (tbl->unique == true) qlisttbl_remove(tbl, name);\n",
+  "    // if unique flag is set, remove same key\n    if (tbl->unique == true) qlisttbl_remove(tbl, name);\n\n    // lock table\n    qlisttbl_lock(tbl);\n",
+  'B-single', None, 'unique-key removal and insertion in two critical sections')
+
+
 def run_selftest(prop, rep, rule_fn, config='cmake-release'):
     """Apply every mutant of `prop` to a scratch copy, run rule_fn(prog, report) on it, and
     require a finding of the expected rule (and function)."""
